@@ -7,7 +7,7 @@
 EXTENDS Programs
 
 CONSTANT MaxRunSteps
-VARIABLES phase, P, d, executed
+VARIABLES phase, argv, P, d, executed
 
 BlockNamesC == DOMAIN Blocks
 CliPrograms ==
@@ -19,5 +19,13 @@ CliPrograms ==
         [data |-> << >>, items |-> <<Lab("start"), I([cls |-> "mov", w |-> 8, dst |-> [k |-> "reg8", r |-> "al"], src |-> [k |-> "imm", v |-> 44, raw |-> 300]], 0)>>,
          interp |-> TRUE, stdin |-> AllNext(3)]}
 
-INSTANCE Cli WITH Programs <- CliPrograms
+Fl(n) == [k |-> "flag", name |-> n]
+File(st) == [k |-> "file", state |-> st]
+CliArgvs ==
+  {<<File("text")>>, <<Fl("-i"), File("text")>>, <<File("text"), Fl("-i")>>, <<Fl("--interpreted"), File("text")>>,
+   << >>, <<Fl("-i")>>, <<File("missing")>>, <<Fl("-i"), File("dir")>>, <<File("binary")>>,
+   <<Fl("-x"), File("text")>>, <<File("text"), File("text")>>, <<Fl("-i"), Fl("--interpreted"), File("text")>>,
+   <<Fl("-h")>>, <<Fl("--version"), File("text")>>, <<File("text"), Fl("-h")>>}
+
+INSTANCE Cli WITH Programs <- CliPrograms, Argvs <- CliArgvs
 =============================================================================
